@@ -13,6 +13,9 @@ thread_local! {
     static BIG_MAX: Cell<usize> = const { Cell::new(0) };
     static BIG_SECOND: Cell<usize> = const { Cell::new(0) };
     static SMALL_COUNT: Cell<u64> = const { Cell::new(0) };
+    static TOTAL_BYTES: Cell<u64> = const { Cell::new(0) };
+    static SIZES: Cell<[usize; 12]> = const { Cell::new([0; 12]) };
+    static NSIZES: Cell<usize> = const { Cell::new(0) };
 }
 
 #[inline]
@@ -20,6 +23,18 @@ fn note(size: usize) {
     // try_with: never touch TLS during thread teardown
     let _ = ENABLED.try_with(|e| {
         if e.get() {
+            let _ = TOTAL_BYTES.try_with(|c| c.set(c.get() + size as u64));
+            let _ = NSIZES.try_with(|n| {
+                let i = n.get();
+                n.set(i + 1);
+                if i < 12 {
+                    let _ = SIZES.try_with(|a| {
+                        let mut v = a.get();
+                        v[i] = size;
+                        a.set(v);
+                    });
+                }
+            });
             if size >= BIG {
                 let _ = BIG_COUNT.try_with(|c| c.set(c.get() + 1));
                 let _ = BIG_MAX.try_with(|m| {
@@ -72,6 +87,11 @@ pub struct Seen {
     pub max: usize,
     pub second: usize,
     pub small: u64,
+    /// sum of the sizes of all allocations and growing reallocations
+    pub bytes: u64,
+    /// number of allocations and the sizes of the first 12 of them
+    pub count: usize,
+    pub sizes: [usize; 12],
 }
 
 /// Runs `f` with recording on for this thread; returns what was allocated inside.
@@ -86,6 +106,9 @@ pub fn measure<T>(f: impl FnOnce() -> T) -> (T, Seen) {
     BIG_MAX.with(|c| c.set(0));
     BIG_SECOND.with(|c| c.set(0));
     SMALL_COUNT.with(|c| c.set(0));
+    TOTAL_BYTES.with(|c| c.set(0));
+    NSIZES.with(|c| c.set(0));
+    SIZES.with(|c| c.set([0; 12]));
     ENABLED.with(|e| e.set(true));
     let off = Off;
     let v = f();
@@ -95,6 +118,9 @@ pub fn measure<T>(f: impl FnOnce() -> T) -> (T, Seen) {
         max: BIG_MAX.with(Cell::get),
         second: BIG_SECOND.with(Cell::get),
         small: SMALL_COUNT.with(Cell::get),
+        bytes: TOTAL_BYTES.with(Cell::get),
+        count: NSIZES.with(Cell::get),
+        sizes: SIZES.with(Cell::get),
     };
     (v, seen)
 }
